@@ -4,6 +4,7 @@ from __future__ import annotations
 import ast
 
 from .. import astq
+from ..model import ClassRef
 from ..core import AnalysisError
 
 LEVEL = 'other'
@@ -126,52 +127,39 @@ def run(ctx, rep):
     ana = fns.get('Tableau.__listen_on.<locals>.after_node_add')
     atk = fns.get('Tableau.__listen_on.<locals>.after_tick')
     astq.need(all((ab, ac, ara, ana, atk)), 'Tableau.__listen_on: listener closures not found')
-    pm = astq.parent_map(ab)
-    oa = astq.find_calls(ab, 'opens.append')
-    ok = len(oa) == 1 and ('not branch.closed', True) in astq.guards_of(ab, astq.stmt_of(pm, oa[0]), pm) and len(astq.find_calls(ab, 'branches.append')) == 1
-    rep.instance(R2, ok=ok, nontrivial='add_branch')
-    if not ok:
-        rep.finding(R2, 'C16.R2/add_branch/open-iff-not-closed', m.loc(TAB, ab), 'add_branch', 'a new branch is not listed open exactly when it is not closed (or not listed in branches once)')
-    bg = [astq.u(c) for c in astq.find_calls(ab, 'branches.append')]
-    pm2 = astq.parent_map(ab)
-    for c in astq.find_calls(ab, 'branches.append'):
-        g = astq.guards_of(ab, astq.stmt_of(pm2, c), pm2)
-        ok = all(p is False for t, p in g if 'branch in self' in t) and not [t for t, p in g if 'branch in self' not in t]
-        rep.instance(R2, ok=ok, nontrivial='branches.append-unconditional')
-        if not ok:
-            rep.finding(R2, 'C16.R2/add_branch/branches-conditional', m.loc(TAB, c), 'add_branch', f'branch registration is conditional: {g}')
-    txt = astq.u(ac)
-    ok = 'opens.remove(branch)' in txt and 'STEP_CLOSED] = self.current_step' in txt and 'self.flag.CLOSED' in txt
-    rep.instance(R2, ok=ok, nontrivial='after_close')
-    if not ok:
-        rep.finding(R2, 'C16.R2/after_close', m.loc(TAB, ac), 'after_close', 'does not remove the branch from the open list and stamp the current step')
-    ok = 'STEP_ADDED] = node.step = self.current_step' in astq.u(ana)
-    rep.instance(R2, ok=ok, nontrivial='after_node_add')
-    if not ok:
-        rep.finding(R2, 'C16.R2/after_node_add', m.loc(TAB, ana), 'after_node_add', 'does not stamp the node with the current step')
-    ok = 'STEP_TICKED] = self.current_step' in astq.u(atk)
-    rep.instance(R2, ok=ok, nontrivial='after_tick')
-    if not ok:
-        rep.finding(R2, 'C16.R2/after_tick', m.loc(TAB, atk), 'after_tick', 'does not stamp the tick with the current step')
+    # (what the listeners record is decided by folding them: fold_listeners below; here only current_step and Rule.apply)
+    from ..minieval import Interp as _I, Obj as _O, Raises as _Rs
     cs = astq.getter(m, TAB, 'Tableau.current_step')
-    ok = astq.u(astq.stmts(cs)[-1]) == 'return len(self.history) + (self.flag.TRUNK_BUILT in self.flag)'
-    rep.instance(R2, ok=ok, nontrivial='current_step')
-    if not ok:
-        rep.finding(R2, 'C16.R2/current_step', m.loc(TAB, cs), 'Tableau.current_step', 'is no longer len(history) + trunk-built')
-    n_app = len([c for c in astq.calls(ara) if astq.call_name(c) == 'history.append'])
-    pm3 = astq.parent_map(ara)
-    ok = n_app == 2 and all(astq.enclosing(pm3, c, ast.Try) is not None for c in astq.calls(ara) if astq.call_name(c) == 'history.append')
-    rep.instance(R2, ok=ok, nontrivial='after_rule_apply-once')
-    if not ok:
-        rep.finding(R2, 'C16.R2/after_rule_apply', m.loc(TAB, ara), 'after_rule_apply', 'no longer records exactly one history entry per rule application (try/except pair)')
+    itc = _I({}, where='Tableau.current_step')
+    for nhist, built in ((0, False), (0, True), (3, False), (3, True)):
+        flags = {'TRUNK_BUILT'} if built else set()
+        flagm = type('F', (set,), {'TRUNK_BUILT': 'TRUNK_BUILT'})(flags)
+        r = itc.safe(cs, [_O('tableau', history=[0] * nhist, flag=flagm)])
+        ok = r == nhist + (1 if built else 0)
+        rep.instance(R2, ok=ok, nontrivial=('current_step', nhist, built))
+        if not ok:
+            rep.finding(R2, f'C16.R2/current_step/{nhist}/{built}', m.loc(TAB, cs), 'Tableau.current_step', f'with {nhist} history entries and trunk built={built} gives {r!r}, expected {nhist + (1 if built else 0)}')
     ra = m.func(TAB, 'Rule.apply')
-    seq = [astq.call_name(c) for c in sorted(astq.calls(ra), key=lambda c: (c.lineno, c.col_offset)) if astq.call_name(c) in ('self._apply', 'self.emit', 'self.tableau.emit')]
-    ok = 'final' in astq.decorators(ra) and seq == ['self.emit', 'self._apply', 'self.emit', 'self.tableau.emit'] and \
-        'Tableau.Events.AFTER_RULE_APPLY' in astq.u(ra)
-    rep.instance(R2, ok=ok, sample=dict(sequence=seq), nontrivial='Rule.apply')
     rep.consult(m.loc(TAB, ra) + ' Rule.apply')
+    log = []
+
+    class CM:
+        def __enter__(s_):
+            log.append('timer-on')
+
+        def __exit__(s_, *a):
+            log.append('timer-off')
+    rule = _O('rule', __srcclass__=(m, ClassRef(TAB, 'Rule')), timers={'apply': CM()}, emit=lambda ev, *a: log.append(('rule-emit', ev, a)),
+              _apply=lambda t: log.append(('_apply', t)), tableau=_O('tableau', emit=lambda ev, *a: log.append(('tableau-emit', ev, a))))
+    ita = _I(dict(Rule=_O('Rule', Events=_O('Events', BEFORE_APPLY='BEFORE_APPLY', AFTER_APPLY='AFTER_APPLY')),
+                  Tableau=_O('Tableau', Events=_O('Events', AFTER_RULE_APPLY='AFTER_RULE_APPLY'))), where='Rule.apply')
+    r = ita.safe(ra, [rule, 'TARGET'])
+    core = [x for x in log if isinstance(x, tuple)]
+    want = [('rule-emit', 'BEFORE_APPLY', ('TARGET',)), ('_apply', 'TARGET'), ('rule-emit', 'AFTER_APPLY', ('TARGET',)), ('tableau-emit', 'AFTER_RULE_APPLY', ('TARGET',))]
+    ok = not isinstance(r, _Rs) and core == want and 'final' in astq.decorators(ra)
+    rep.instance(R2, ok=ok, sample=dict(sequence=[x[:2] for x in core]), nontrivial='Rule.apply')
     if not ok:
-        rep.finding(R2, 'C16.R2/Rule.apply', m.loc(TAB, ra), 'Rule.apply', f'is not @final BEFORE_APPLY -> _apply -> AFTER_APPLY -> AFTER_RULE_APPLY (found {seq})')
+        rep.finding(R2, 'C16.R2/Rule.apply', m.loc(TAB, ra), 'Rule.apply', f'is not the @final BEFORE_APPLY -> _apply -> AFTER_APPLY -> AFTER_RULE_APPLY on the target (observed {core})')
     allowed_apply = {(TAB, 'Tableau.step'), (TAB, 'Rule.test'), ('pytableaux.proof', 'RuleMeta.induce_branching')}
     for mod, qn, fn in astq.iter_functions(m):
         if mod.startswith('pytableaux.web') or mod.startswith('pytableaux.tools.doc'):
@@ -187,17 +175,20 @@ def run(ctx, rep):
     fold_listeners(ctx, rep, R2, ab, ac, ana, atk, ara)
 
     R3 = rep.rule('C16.R3', 'branches only grow: closed branches refuse nodes first; no removal from a branch\'s node sequence')
-    ap = m.func(COMMON, 'Branch.append')
-    b = astq.stmts(ap)
-    ok = isinstance(b[0], ast.If) and astq.u(b[0].test) == 'self.closed' and isinstance(b[0].body[-1], ast.Raise)
+    from . import c06 as _c06
+    ok = _c06.closed_guard_ok(ctx)
     rep.instance(R3, ok=ok, nontrivial='closed-guard')
     if not ok:
-        rep.finding(R3, 'C16.R3/Branch.append/closed-guard', m.loc(COMMON, ap), 'Branch.append', 'does not refuse a closed branch as its first action')
+        rep.finding(R3, 'C16.R3/Branch.append/closed-guard', m.relfile(COMMON), 'Branch.append', 'does not refuse a closed branch before changing anything (folded)')
     cl = astq.getter(m, COMMON, 'Branch.closed')
-    ok = 'isinstance(self[-1], ClosureNode)' in astq.u(cl)
-    rep.instance(R3, ok=ok, nontrivial='closed-property')
-    if not ok:
-        rep.finding(R3, 'C16.R3/Branch.closed', m.loc(COMMON, cl), 'Branch.closed', 'is no longer "last node is the closure node"')
+    CN = type('ClosureNode', (dict,), {})
+    itb = _I(dict(ClosureNode=CN, isinstance=isinstance, bool=bool, len=len), where='Branch.closed')
+    for nodes, want in (([], False), ([{'sentence': 1}], False), ([{'sentence': 1}, CN()], True), ([CN(), {'sentence': 1}], False)):
+        r = itb.safe(cl, [list(nodes)])
+        ok = r is want
+        rep.instance(R3, ok=ok, nontrivial=('closed-property', len(nodes), want))
+        if not ok:
+            rep.finding(R3, f'C16.R3/Branch.closed/{len(nodes)}-{want}', m.loc(COMMON, cl), 'Branch.closed', f'on nodes {nodes!r} gives {r!r}, expected {want} (closed = the last node is the closure node)')
     for mod, qn, fn, c in astq.method_calls_on_attr(m, '_nodes', ('remove', 'pop', 'clear', 'discard', 'insert', 'sort', 'reverse', '__delitem__', '__setitem__')):
         rep.instance(R3, ok=False, nontrivial=('_nodes', qn))
         rep.finding(R3, f'C16.R3/_nodes/{mod}:{qn}', m.loc(mod, c), qn, f'`{astq.u(c)}` removes or reorders nodes of a branch')
@@ -209,24 +200,67 @@ def run(ctx, rep):
 
     R4 = rep.rule('C16.R4', 'forks extend their parent: Tableau.branch copies the parent; per-branch caches copy the parent\'s entry')
     tb = m.func(TAB, 'Tableau.branch')
-    ok = 'branch = parent.copy(parent=parent)' in astq.u(tb) and 'self.add(branch)' in astq.u(tb)
+    rep.consult(m.loc(TAB, tb) + ' Tableau.branch')
+    added = []
+
+    class PB:
+        def __init__(s_, parent=None):
+            s_.parent, s_.copied = parent, False
+
+        def copy(s_, parent=None, **kw):
+            b_ = PB(parent)
+            b_.copied = s_
+            return b_
+    tabm = _O('tableau', __srcclass__=(m, ClassRef(TAB, 'Tableau')), add=lambda b_: added.append(b_))
+    itt = _I(dict(Branch=PB), where='Tableau.branch')
+    par = PB()
+    r = itt.safe(tb, [tabm], dict(parent=par))
+    ok = isinstance(r, PB) and r.copied is par and r.parent is par and added == [r]
     rep.instance(R4, ok=ok, nontrivial='Tableau.branch')
     if not ok:
-        rep.finding(R4, 'C16.R4/Tableau.branch', m.loc(TAB, tb), 'Tableau.branch', 'a fork is not parent.copy(parent=parent) registered through add()')
+        rep.finding(R4, 'C16.R4/Tableau.branch', m.loc(TAB, tb), 'Tableau.branch', f'a fork is not a copy of the parent (with parent set) registered once through add(): got {r!r}, added {added}')
+    del added[:]
+    r = itt.safe(tb, [tabm])
+    ok = isinstance(r, PB) and r.copied is False and r.parent is None and added == [r]
+    rep.instance(R4, ok=ok, nontrivial='Tableau.branch-root')
+    if not ok:
+        rep.finding(R4, 'C16.R4/Tableau.branch/root', m.loc(TAB, tb), 'Tableau.branch', f'a root branch is not a fresh Branch registered through add(): got {r!r}')
     bc = dict(astq.all_functions(m.trees[HELPERS]))
-    aba = bc.get('BranchCache.listen_on.<locals>.after_branch_add')
-    astq.need(aba is not None, 'BranchCache.listen_on.after_branch_add not found')
-    txt = astq.u(aba)
-    ok = 'if branch.parent' in txt and 'self[branch] = copy(self[branch.parent])' in txt and 'self[branch] = self.valuetype()' in txt
-    rep.instance(R4, ok=ok, nontrivial='BranchCache.after_branch_add')
-    rep.consult(m.loc(HELPERS, aba) + ' BranchCache.after_branch_add')
-    if not ok:
-        rep.finding(R4, 'C16.R4/BranchCache.after_branch_add', m.loc(HELPERS, aba), 'BranchCache.after_branch_add', 'a forked branch does not start from a copy of its parent\'s cache entry')
-    bdc = bc.get('BranchDictCache.listen_on.<locals>.after_branch_add')
-    ok = bdc is not None and 'self[branch][key] = copy(self[branch.parent][key])' in astq.u(bdc)
-    rep.instance(R4, ok=ok, nontrivial='BranchDictCache.after_branch_add')
-    if not ok:
-        rep.finding(R4, 'C16.R4/BranchDictCache.after_branch_add', m.relfile(HELPERS), 'BranchDictCache.after_branch_add', 'values of a forked branch\'s cache entry are shared with the parent')
+    import copy as _copy
+    for cname, deep_ in (('BranchCache', False), ('BranchDictCache', True)):
+        aba = bc.get(f'{cname}.listen_on.<locals>.after_branch_add')
+        astq.need(aba is not None, f'{cname}.listen_on.after_branch_add not found')
+        rep.consult(m.loc(HELPERS, aba) + f' {cname}.after_branch_add')
+
+        class Cache(dict):
+            valuetype = dict if deep_ else set
+        cache = Cache()
+        parent = _O('parent-branch', parent=None)
+        child = _O('child-branch', parent=parent)
+        orphan = _O('root-branch', parent=None)
+        cache[parent] = {'k': {1, 2}} if deep_ else {1, 2}
+        ith = _I(dict(self=cache, copy=_copy.copy), where=f'{cname}.after_branch_add')
+        if deep_:
+            # BranchDictCache runs the base listener first (super().listen_on()): the entry exists as a shallow copy
+            base = bc.get('BranchCache.listen_on.<locals>.after_branch_add')
+            ith.safe(base, [child])
+        r1_ = ith.safe(aba, [child])
+        if deep_:
+            ith.safe(bc.get('BranchCache.listen_on.<locals>.after_branch_add'), [orphan])
+        r2_ = ith.safe(aba, [orphan])
+        probs = []
+        if isinstance(r1_, _Rs) or isinstance(r2_, _Rs):
+            probs.append(f'raises {r1_!r} {r2_!r}')
+        else:
+            if cache.get(child) != cache[parent] or cache.get(child) is cache[parent]:
+                probs.append(f'the fork\'s entry {cache.get(child)!r} is not an own copy of the parent\'s {cache[parent]!r}')
+            if deep_ and cache.get(child) and cache[child]['k'] is cache[parent]['k']:
+                probs.append('the values of the fork\'s entry are shared with the parent')
+            if cache.get(orphan) != Cache.valuetype():
+                probs.append(f'a root branch starts with {cache.get(orphan)!r}, not an empty {Cache.valuetype.__name__}')
+        rep.instance(R4, ok=not probs, nontrivial=f'{cname}.after_branch_add')
+        for p_ in probs:
+            rep.finding(R4, f'C16.R4/{cname}.after_branch_add/{p_[:40]}', m.loc(HELPERS, aba), f'{cname}.after_branch_add', p_)
 
     R5 = rep.rule('C16.R5', 'tree builder: counts accumulate over children, leaves are exactly single-branch structures')
     from .. import treefold
